@@ -546,8 +546,6 @@ def build(node, env, grouped=False):
         if k == "lit":
             return W(sa.literal(n[2], env.types[n[1]]))
         if k == "const":
-            if n[1] in ("pytrue", "pyfalse") and not grouped:
-                return n[1] == "pytrue"  # a bare Python bool, coerced by and_() / or_()
             return W(sa.true() if n[1] in ("true", "pytrue") else sa.false())
         if k == "bin":
             return W(_BINOPS[n[1]](B(n[2]), B(n[3])))
@@ -555,10 +553,11 @@ def build(node, env, grouped=False):
             return W(-B(n[1]))
         if k == "not":
             return W(sa.not_(B(n[1])))
-        if k == "and":
-            return W(sa.and_(*[B(c) for c in n[1]]))
-        if k == "or":
-            return W(sa.or_(*[B(c) for c in n[1]]))
+        if k in ("and", "or"):
+            # a py constant is handed over as the bare Python bool (coerced by and_()/or_());
+            # anywhere else, and in the grouped form, it is true() / false()
+            args = [(c[1] == "pytrue") if (c[0] == "const" and c[1].startswith("py") and not grouped) else B(c) for c in n[1]]
+            return W((sa.and_ if k == "and" else sa.or_)(*args))
         if k == "isnull":
             x = B(n[1])
             return W(x.is_not(None) if n[2] else x.is_(None))
